@@ -18,11 +18,17 @@
   bounds survive every sequence of API calls, across sessions. For ALL sequences from a fresh conversation
   (with panic-freedom): Props.C19Api (`api_sequence_keys_refine`, `api_c19_bounded`) — a separate module
   because its imports (Proofs.NoPanic) and this one's (Proofs.Fixes2) can not be combined.
+  Peer's disconnect (repaired code, Proofs.Fixes5): the MAC keys of the conversation that ends stay in the reveal
+  queue; `processDisconnectedTLV_queue_length` / `_queue_bound`: exactly |MAC history| ≤ 4 keys are added and
+  the context stays bounded; `disc_queue_bound_histE`: the queue holds at most |old queue| + 4 keys until a
+  key exchange completes (nothing can be sent before); `disconnect_then_ake_next_message_reveals`: the first
+  data message of the next conversation carries them all and empties the queue.
 -/
 
 import Proofs.Keys
 import Proofs.Fixes2
 import Proofs.KeysRefine
+import Proofs.Fixes5Send
 namespace Otr.C19
 open Otr
 
@@ -111,5 +117,23 @@ theorem runApi_keys_refine : type_of% @Otr.runApi_keys_refine := @Otr.runApi_key
 
 /-- at most 4 counters and 4 MAC-history entries after any sequence of API calls from a bounded state, across sessions -/
 theorem runApi_bounded : type_of% @Otr.runApi_bounded := @Otr.runApi_bounded
+
+/-- repaired code: the reveal queue after the peer's disconnect, exactly and bounded -/
+theorem processDisconnectedTLV_queue_length : type_of% @Otr.processDisconnectedTLV_queue_length :=
+  @Otr.processDisconnectedTLV_queue_length
+
+theorem processDisconnectedTLV_queue_bound (s : MState) (r : Except Err Unit) (s' : MState)
+    (hb : s.conv.keys.Bnd) (h : runM processDisconnectedTLV s = .ok (r, s')) :
+    s'.conv.keys.oldMACKeys.length ≤ s.conv.keys.oldMACKeys.length + 4 ∧ s'.conv.keys.Bnd := by
+  first | exact Otr.processDisconnectedTLV_queue_bound | exact @Otr.processDisconnectedTLV_queue_bound | (apply Otr.processDisconnectedTLV_queue_bound <;> assumption) | (intros; apply Otr.processDisconnectedTLV_queue_bound <;> assumption)
+
+/-- the bound holds until a key exchange completes -/
+theorem disc_queue_bound_histE {K} {k k' : Keys} (hb : k.Bnd) (hs : KHistE K k.afterDisc k') :
+    k'.oldMACKeys.length ≤ k.oldMACKeys.length + 4 := by
+  first | exact Otr.disc_queue_bound_histE | exact @Otr.disc_queue_bound_histE | (apply Otr.disc_queue_bound_histE <;> assumption) | (intros; apply Otr.disc_queue_bound_histE <;> assumption)
+
+/-- peer disconnect, completed key exchange, next data message: all kept MAC keys are revealed, the queue is empty -/
+theorem disconnect_then_ake_next_message_reveals : type_of% @Otr.disconnect_then_ake_next_message_reveals :=
+  @Otr.disconnect_then_ake_next_message_reveals
 
 end Otr.C19
